@@ -85,8 +85,9 @@ def run(ctx):
     rw.torch = TorchProxy(real_torch, rec)
     cases, metas = [], []
     try:
-        for _ in range(ctx.budget(150, 1500)):
-            gd = G.gen_graph(rng, cap=400)
+        for it_ in range(ctx.budget(150, 1500)):
+            crowded = it_ % 5 == 4
+            gd = G.gen_graph(rng, cap=30 if crowded else 400)
             layers, dist = G.ref_bfs(gd, [gd["central"]])
             cfgd = G.gen_config(rng, gd)
             graph = G.make_graph(gd, cfgd)
@@ -94,6 +95,10 @@ def run(ctx):
             width = rng.choice([1, 2, 3, 5, 8, max(len(l) for l in layers), max(len(l) for l in layers) + 1])
             length = rng.choice([1, 2, 3, 5, len(layers), len(layers) + 2, 14])
             depth = rng.choice([0, 0, 1, 2, 3]) if mode == "nbt" else 0
+            if crowded:
+                # many non-backtracking walkers with a long memory on a tiny graph: the fresh neighbour rows run out (0 < fresh < width, and fresh = 0)
+                mode, width, length, depth = "nbt", rng.choice([4, 8, 16, 40]), rng.choice([8, 14, 20]), rng.choice([1, 2, 3, 5, 8])
+                ctx.count("nbt_crowded")
             start = None if rng.random() < 0.5 else list(rng.choice(sorted(dist)))
             kw = dict(width=width, length=length, mode=mode)
             if start is not None:
